@@ -341,6 +341,10 @@ class WorkflowRecovery:
                             )
                         )
                 elif not_started_tasks and stage.start_time is not None:
+                    if any(not b.status.is_complete for b in stage.before_stages()):
+                        # The stage's tasks start only after its before-stages:
+                        # ContinueParentStage starts the first task then.
+                        continue
                     first_task = not_started_tasks[0]
                     # Mirror the running-task guard: skip if a message for this
                     # task is already queued, so a recovery sweep overlapping
@@ -439,6 +443,11 @@ class WorkflowRecovery:
         """
         from stabilize.models.stage import JoinType
         from stabilize.models.status import CONTINUABLE_STATUSES
+
+        # A synthetic (before/after) stage is started by its parent's own
+        # handlers at the right moment; the sweep must not start it early.
+        if stage.parent_stage_id is not None:
+            return False
 
         # No dependencies - can always start
         if not stage.requisite_stage_ref_ids:
